@@ -1,0 +1,64 @@
+//go:build verif
+
+package main
+
+// Verification hook (build tag verif only, add-only, no change of behaviour of a
+// normal build): when the environment variable SCION_TIME_VERIF_WIRING names a
+// TOML configuration file, the program loads it with the service's own
+// loadConfig, calls the service's own localAddress and createClocks as runServer
+// and runClient do, prints for every element of the two clock lists its role
+// (ref / peer), its position, its kind and what it was configured from, and
+// exits without starting anything. The SCION daemon address is cleared first,
+// so that createClocks neither connects to a daemon nor starts a pather: clock
+// objects are only constructed, no socket or device is opened.
+
+import (
+	"fmt"
+	"log/slog"
+	"os"
+	"reflect"
+
+	"example.com/scion-time/core/client"
+)
+
+func verifClockInfo(c client.ReferenceClock) (kind, id string) {
+	switch t := c.(type) {
+	case *ntpReferenceClockIP:
+		return "ntp-ip", t.remoteAddr.String()
+	case *ntpReferenceClockSCION:
+		return "ntp-scion", fmt.Sprintf("%s,%s", t.remoteAddr.IA, t.remoteAddr.Host)
+	}
+	kind = fmt.Sprintf("%T", c)
+	v := reflect.ValueOf(c)
+	if v.Kind() == reflect.Pointer && v.Elem().Kind() == reflect.Struct {
+		if f := v.Elem().FieldByName("dev"); f.IsValid() && f.Kind() == reflect.String {
+			return kind, f.String()
+		}
+		if f := v.Elem().FieldByName("unit"); f.IsValid() && f.CanInt() {
+			return kind, fmt.Sprint(f.Int())
+		}
+	}
+	return kind, "?"
+}
+
+func init() {
+	file := os.Getenv("SCION_TIME_VERIF_WIRING")
+	if file == "" {
+		return
+	}
+	cfg := loadConfig(file)
+	cfg.SCIONDaemonAddr = ""
+	localAddr := localAddress(cfg)
+	localAddr.Host.Port = 0
+	refClocks, peerClocks := createClocks(cfg, localAddr, slog.Default())
+	for i, c := range refClocks {
+		k, id := verifClockInfo(c)
+		fmt.Printf("verif-wiring ref %d %s %s\n", i, k, id)
+	}
+	for i, c := range peerClocks {
+		k, id := verifClockInfo(c)
+		fmt.Printf("verif-wiring peer %d %s %s\n", i, k, id)
+	}
+	fmt.Printf("verif-wiring-done %d %d\n", len(refClocks), len(peerClocks))
+	os.Exit(0)
+}
